@@ -108,12 +108,13 @@ pub fn gen_case(t: &mut Tape, hazard: Option<&'static str>, hazard_names: bool) 
         source.push_str(*t.pick(EXTRAS));
     }
     source.push('\n');
+    let flags: Vec<String> = touched.iter().map(|s| s.to_string()).chain(prog.has_window().then(|| "uses_window".to_string())).collect();
     Case {
         base: c01::Case {
             db,
             prog,
             target,
-            flags: touched.iter().map(|s| s.to_string()).collect(),
+            flags,
             names,
         },
         source,
